@@ -33,7 +33,7 @@ RULE = ("every fault point of every scenario is enumerated (index 0,1,2,... over
 ASSUMPTIONS = [
     "an injected fault at open/rename/unlink means the operation did not take place (open: optionally 'file was created, then the error'); "
     "a fault at write optionally leaves a partial temp file; a fault at close happens after the descriptor is released",
-    "temporary names of the written files are pairwise distinct and distinct from the model's files (holds unless two names share a 250-character prefix; hypothesis TmpOK of the theorems)",
+    "temp names: the handler refuses a write whose temp name clashes with another file of the transaction (modelled: `clash`; proved: a successful save has usable temp names, a clashing one is refused before the file is touched; for the real _tmpname usable names follow from 'last component <= 250 bytes and not shaped .*.tmp'). A file that exists beforehand under the temp name of a written file is treated as a stale temp file (known finding tmp-named-file-lost)",
     "nobody else touches the directory during the transaction (documented precondition of write_transaction)",
     "power loss / fsync durability is not part of the property and not modelled",
 ]
@@ -45,11 +45,13 @@ MANIFEST = dict(
           "first rename and every fault kind the directory is restored, no temp file is left, the transaction is reset and "
           "the injected error is the one seen; retry succeeds after any fault sequence; dry-run is a no-op; commit installs "
           "complete contents only; under arbitrary fault sequences every file is old or complete-new and the transaction is "
-          "always reset. Tied to /repo by running the real save with a fault at every effectful call (trace, error, "
+          "always reset; the temp-name check of open() is exact, a successful save implies usable temp names, a save with "
+          "clashing temp names (long names sharing a 250-byte prefix, a name that is another file's temp name) is refused "
+          "before the clashing file is touched; _tmpname is byte-bounded (<= 255 bytes) and injective on names <= 250 bytes. Tied to /repo by running the real save with a fault at every effectful call (trace, error, "
           "directory hashes, transaction state compared with the model) and an independent before/after monitor."),
     design_ref="§6 C15",
     note=("Trusted: Lean kernel; the injection shims; POSIX rename/unlink/open semantics as modelled (atomic replace, "
-          "open(wb) truncates); temp-name injectivity is a hypothesis; durability (fsync/power loss) not covered."),
+          "open(wb) truncates); temp-name usability is enforced by the modelled clash check of open() and proved for _tmpname on UTF-8 byte lengths; durability (fsync/power loss) not covered."),
     technique="Lean 4 proof (bracket invariant, induction over fragments and over the commit/cleanup loops, ∀ fault index) + exhaustive fault-point differential run against the real handler",
 )
 
@@ -81,9 +83,12 @@ class Injector:
     schedule: {index: (kind, eff)}; eff=True lets the side effect happen before the error where that is
     meaningful (open: file created; write: half of the data written)."""
 
-    def __init__(self, root: pathlib.Path, schedule: dict[int, tuple[str, bool]]):
+    def __init__(self, root: pathlib.Path, schedule: dict[int, tuple[str, bool]], targets=()):
         self.root = root
         self.schedule = schedule
+        self.tmpmap: dict[str, str] = {}  # temp name -> target it belongs to (first writer wins, as in the code)
+        for t in targets:
+            self.tmpmap.setdefault(tmpname(t), t)
         self.n = 0
         self.trace: list[tuple[str, str]] = []
         self.fired: list[tuple[int, str, str, BaseException]] = []  # (index, event, path, exception)
@@ -141,8 +146,11 @@ class FaultyFile:
         return getattr(self._real, name)
 
 
-def untmp(name: str) -> str:
-    """'.x.tmp' -> 'x' on the last component (harness-side inverse of _tmpname for short names)."""
+def untmp(name: str, tmpmap: dict[str, str] | None = None) -> str:
+    """'.x.tmp' -> 'x' on the last component (harness-side inverse of _tmpname; truncated names through the
+    scenario's own temp->target map)."""
+    if tmpmap and name in tmpmap:
+        return tmpmap[name]
     p = pathlib.PurePosixPath(name)
     n = p.name
     if n.startswith(".") and n.endswith(".tmp"):
@@ -161,7 +169,7 @@ def injecting(inj: Injector):
     def p_open(self, mode="r", *a, **k):
         if "w" not in mode:
             return o_open(self, mode, *a, **k)
-        tgt = untmp(inj.rel(self))
+        tgt = untmp(inj.rel(self), inj.tmpmap)
         hit = inj.point("open", tgt)
         if hit:
             exc, eff = hit
@@ -178,7 +186,7 @@ def injecting(inj: Injector):
         return o_replace(self, target)
 
     def p_unlink(self, *a, **k):
-        hit = inj.point("unlink", untmp(inj.rel(self)))
+        hit = inj.point("unlink", untmp(inj.rel(self), inj.tmpmap))
         if hit:
             raise hit[0]
         return o_unlink(self, *a, **k)
@@ -416,6 +424,26 @@ def build_scenarios(ctx: Ctx) -> list[Scenario]:
     direct("direct:user-exc", [("w", "a.xml", "A"), ("w", "b.xml", "B"), ("raise",)], {"a.xml": b"old a"})
     direct("direct:nested", [("w", "a.xml", "A"), ("nested",), ("w", "b.xml", "B")], {"a.xml": b"old a", "b.xml": b"old b"})
     direct("direct:empty", [], {"a.xml": b"old a"})
+
+    # temp-name boundary cases: `_tmpname` cuts long names, so two targets can share a temp name, a temp name can be
+    # a target, and (counted in characters) a temp name can exceed the 255-BYTE limit of the file system.
+    # Such a save must either succeed completely or be refused leaving everything as it was.
+    L = "a" * 250
+    direct("direct:long-name", [("w", "n" * 255, "N"), ("w", "m.xml", "M")], {"n" * 255: b"old n", "m.xml": b"old m"})
+    direct("direct:long-nonascii", [("w", "ok.xml", "K"), ("w", "\u00e9" * 126, "E"), ("w", "sub/" + "\u20ac" * 84 + "abc", "F")],
+           {"ok.xml": b"old k", "\u00e9" * 126: b"old e", "sub/" + "\u20ac" * 84 + "abc": b"old f"})
+    direct("direct:long-siblings", [("w", L + "1.x", "1"), ("w", "mid.xml", "M"), ("w", L + "2.x", "2")],
+           {L + "1.x": b"old 1", L + "2.x": b"old 2", "mid.xml": b"old m", "other.txt": b"bystander"})
+    direct("direct:long-siblings-nonascii", [("w", "\u00e9" * 125 + "ab", "1"), ("w", "\u00e9" * 125 + "cd", "2")],
+           {"\u00e9" * 125 + "ab": b"old 1", "\u00e9" * 125 + "cd": b"old 2"})
+    direct("direct:tmp-shaped-first", [("w", ".x.xml.tmp", "T"), ("w", "x.xml", "X")], {".x.xml.tmp": b"old t", "x.xml": b"old x"})
+    direct("direct:tmp-shaped-second", [("w", "x.xml", "X"), ("w", "y.xml", "Y"), ("w", ".x.xml.tmp", "T")],
+           {".x.xml.tmp": b"old t", "x.xml": b"old x"})
+    direct("direct:self-tmp", [("w", "a.xml", "A"), ("w", "." * 251 + ".tmp", "S")], {"." * 251 + ".tmp": b"old s", "a.xml": b"old a"})
+    for sc in scs:
+        if sc.label in ("direct:long-siblings", "direct:long-siblings-nonascii", "direct:tmp-shaped-first",
+                        "direct:tmp-shaped-second", "direct:self-tmp"):
+            sc.may_refuse = True
     return scs
 
 
@@ -427,7 +455,7 @@ def run_case(sc: Scenario, schedule: dict[int, tuple[str, bool]], dry_run: bool)
     frags = sc.frags()
     before = snapshot(sc.root)
     dirs_before = dirs_of(sc.root)
-    inj = Injector(sc.root, schedule)
+    inj = Injector(sc.root, schedule, [p for p, _ in frags])
     seen: BaseException | None = None
     warnings: list[str] = []
 
@@ -439,6 +467,7 @@ def run_case(sc: Scenario, schedule: dict[int, tuple[str, bool]], dry_run: bool)
     h = H()
     lg = logging.getLogger("capellambse.filehandler.local")
     lg.addHandler(h)
+    propagate, lg.propagate = lg.propagate, False  # the warnings are observed here, not printed
     try:
         with injecting(inj):
             try:
@@ -447,12 +476,13 @@ def run_case(sc: Scenario, schedule: dict[int, tuple[str, bool]], dry_run: bool)
                 seen = e
     finally:
         lg.removeHandler(h)
+        lg.propagate = propagate
     after = snapshot(sc.root)
     dirs_after = dirs_of(sc.root)
     txn_after = sc.txn()
     # retry on the same object, no faults
     retry_exc: BaseException | None = None
-    inj2 = Injector(sc.root, {})
+    inj2 = Injector(sc.root, {}, [p for p, _ in frags])
     with injecting(inj2):
         try:
             sc.save(False)
@@ -466,7 +496,7 @@ def run_case(sc: Scenario, schedule: dict[int, tuple[str, bool]], dry_run: bool)
     for rel in set(final) - set(before) - {p for p, _ in frags}:
         with contextlib.suppress(OSError):
             (sc.root / rel).unlink()
-    if getattr(sc, "natural", False):  # a scenario that must keep failing by itself: put its directory back as it was
+    if getattr(sc, "natural", False) or getattr(sc, "may_refuse", False):  # a scenario that (may) keep failing by itself: put its directory back as it was
         for d in sorted(dirs_final - dirs_before, reverse=True):
             shutil.rmtree(sc.root / d, ignore_errors=True)
         for rel in set(final) - set(before):
@@ -501,8 +531,13 @@ def is_tmp_of(rel: str, targets) -> bool:
 
 
 def tmpname(rel: str) -> str:
+    """the temp name the handler uses for `rel`: '.' + longest character prefix of at most 250 BYTES + '.tmp'
+    (file-name limits count bytes; for ASCII names this is the 250-character cut of the pinned code)"""
     p = pathlib.PurePosixPath(rel)
-    return p.with_name("." + p.name[:250] + ".tmp").as_posix()
+    n = p.name
+    while len(n.encode("utf-8", "surrogateescape")) > 250:
+        n = n[:-1]
+    return p.with_name("." + n + ".tmp").as_posix()
 
 
 def monitor(sc: Scenario, schedule, dry_run: bool, r: dict) -> tuple[str, str] | None:
@@ -513,6 +548,14 @@ def monitor(sc: Scenario, schedule, dry_run: bool, r: dict) -> tuple[str, str] |
     new = {p: DECL + pay for p, pay in r["frags"]}
     fired = inj.fired
     natural = getattr(sc, "natural", False)
+    may_refuse = getattr(sc, "may_refuse", False)
+
+    def is_refusal(e) -> bool:
+        # the handler's own refusal of a file name (never one of the injected kinds)
+        return may_refuse and type(e) is RuntimeError and all(e is not f[3] for f in fired)
+
+    if is_refusal(seen):
+        natural = True
     renamed = []  # targets whose rename call completed
     for i, (ev, p) in enumerate(inj.trace):
         if ev == "rename" and not any(f[0] == i for f in fired):
@@ -524,6 +567,16 @@ def monitor(sc: Scenario, schedule, dry_run: bool, r: dict) -> tuple[str, str] |
 
     def bad(kind, msg):
         return (f"{kind}|{cls_point}", f"{msg}; {where}")
+
+    def lost_tmp_named(paths):
+        """a file that existed before and carries the temp name of ANOTHER file of this save: the handler opens
+        (truncates) it as that file's temp file and removes it on roll-back; reported under one signature,
+        whatever the fault point"""
+        hit = [p for p in paths if p in before and p in temps and tmpname(p) != p]
+        if hit and len(hit) == len(paths):
+            return ("tmp-named-file-lost", f"{hit} existed before the save and was used as a temporary file (truncated, then "
+                    f"removed or replaced) because it is named like the temp file of another written file; {where}")
+        return None
 
     # --- transaction state: reset in every case
     if r["txn_after"] is not None:
@@ -547,7 +600,10 @@ def monitor(sc: Scenario, schedule, dry_run: bool, r: dict) -> tuple[str, str] |
         if leftover and not unlink_faults:
             return bad("temp-left", f"temporary files remain after a successful save: {leftover}")
     elif not failed and dry_run:
-        if [p for p in changed if p not in temps]:
+        dchanged = [p for p in changed if p not in temps or p in new or p in before]
+        if dchanged and lost_tmp_named(dchanged):
+            return lost_tmp_named(dchanged)
+        if dchanged:
             return bad("dry-run-changes", f"dry-run changed {changed}")
         if leftover and not unlink_faults:
             return bad("temp-left", f"temporary files remain after dry-run: {leftover}")
@@ -559,7 +615,7 @@ def monitor(sc: Scenario, schedule, dry_run: bool, r: dict) -> tuple[str, str] |
         if natural:
             # the scenario fails by itself (duplicate name, missing directory, user exception, nested transaction):
             # the caller must see that error or an injected one, never something else (e.g. a clean-up FileNotFoundError)
-            nat_ok = (isinstance(seen, RuntimeError) and "already" in str(seen)) or seen is getattr(sc, "user_exc", None) \
+            nat_ok = (isinstance(seen, RuntimeError) and "already" in str(seen)) or is_refusal(seen) or seen is getattr(sc, "user_exc", None) \
                 or (isinstance(seen, FileNotFoundError) and seen.filename is not None
                     and parent_missing(inj.rel(seen.filename), r["dirs_before"]))
             if not (nat_ok or seen in raising):
@@ -577,14 +633,16 @@ def monitor(sc: Scenario, schedule, dry_run: bool, r: dict) -> tuple[str, str] |
                 return bad("error-lost", f"the original error {raising[0]!r} is not in the context chain of {seen!r}")
         if not renamed:
             # nothing was committed: every model file byte-identical
-            real_changed = [p for p in changed if p not in temps]
+            real_changed = [p for p in changed if p not in temps or p in new or p in before]
+            if real_changed and lost_tmp_named(real_changed):
+                return lost_tmp_named(real_changed)
             if real_changed:
                 return bad("files-changed", f"failed save (nothing committed) changed {real_changed}")
         else:
             # partially committed (fault after the first rename): outside "before the transaction commits";
             # still: no torn file
             for p in changed:
-                if p in temps:
+                if p in temps and p not in new and p not in before:
                     continue
                 if p not in new or after.get(p) != new[p]:
                     return bad("torn-file", f"{p} is neither its old nor its complete new content after a late fault")
@@ -616,7 +674,16 @@ def monitor(sc: Scenario, schedule, dry_run: bool, r: dict) -> tuple[str, str] |
             return bad("dir-left", f"directories created that hold none of the written files: {new_dirs}")
 
     # --- retry on the same object must succeed (unless the scenario fails by itself)
-    if not natural:
+    if is_refusal(r["retry_exc"]):
+        # the file names themselves are refused: the retry must leave everything as the first attempt left it
+        if r["txn_final"] is not None:
+            return bad("txn-stuck", "transaction set not reset after a refused retry")
+        diff = sorted(p for p in set(after) | set(final) if after.get(p) != final.get(p) and not (p in temps and p not in new and p not in before))
+        if diff and lost_tmp_named(diff):
+            return lost_tmp_named(diff)
+        if diff:
+            return bad("files-changed", f"a refused retry changed {diff}")
+    elif not natural:
         if r["retry_exc"] is not None:
             return bad("retry-fails", f"second save() raised {r['retry_exc']!r}")
         if r["txn_final"] is not None:
@@ -701,7 +768,8 @@ def model_request(sc: Scenario, schedule, dry_run: bool, r: dict) -> tuple[dict,
     def errn(e):
         n = exc_name(e)
         if n == "RuntimeError":
-            return "alreadyWritten" if "already written" in str(e) else "alreadyOpen" if "already open" in str(e) else n
+            return ("alreadyWritten" if "already written" in str(e) else "alreadyOpen" if "already open" in str(e)
+                    else "tmpClash" if "emporary" in str(e) else n)
         return ERRMAP.get(n, n)
 
     obs = {
@@ -780,6 +848,10 @@ def run(ctx: Ctx) -> Outcome:
                 out.hit("outcome:" + ("ok" if r["seen"] is None else "failed") + (":dry" if dry_run else ""))
                 if len(inj.fired) > 1:
                     out.hit("fault-sequence")
+                if type(r["seen"]) is RuntimeError and "emporary" in str(r["seen"]):
+                    out.hit("open:temp-name-clash-refused")
+                if any(len(pathlib.PurePosixPath(p_).name.encode()) > 250 for p_, _ in r["frags"]) and any(ev == "rename" for ev, _ in inj.trace):
+                    out.hit("tmpname:cut-name-committed")
                 verdict = monitor(sc, schedule, dry_run, r)
                 if verdict:
                     sig, what = verdict
